@@ -358,4 +358,14 @@ def providerGets (mt : Nat → Nat → Bool) (s : AuthSt) (p : Provider) (o : Na
 def authSet (mt : Nat → Nat → Bool) (s : AuthSt) (store : Nat) (o : Nat) : Option Provider :=
   (s.providers store).find? fun p => providerGets mt s p o
 
+/-- `set_on_case(case, context, auth_storage)`: the storage `apply` attached to the test if there is one, else the
+    schema's (storage 1) if it has providers, else the global one (storage 0) if it has providers -/
+def setOnCase (mt : Nat → Nat → Bool) (s : AuthSt) (test : Option Nat) (o : Nat) : Option Provider :=
+  match test.bind s.testStore with
+  | some p => if providerGets mt s p o then some p else none
+  | none =>
+    if !(s.providers 1).isEmpty then authSet mt s 1 o
+    else if !(s.providers 0).isEmpty then authSet mt s 0 o
+    else none
+
 end SV.Model.C19
